@@ -1,9 +1,20 @@
-"""
-C14 - Delimited (appendable) types evolve without breaking containers or the wire.
+"""C14 - delimited (appendable) types evolve without breaking containers or the wire: layout half (lemmas over the C02
+contracts, specs/c14_layout.py) and, when present, the wire half (contracts on _serdes.py, specs/c14_wire.py)."""
+from . import c14_layout as _layout
+from .c14_layout import *  # noqa
+from .c14_layout import LEMMAS, LEAN  # noqa
 
-  * wire half: specs/c14_wire.py (contracts of pydsdl/_serdes.py tagged C14, in specs/c06.py);
-  * layout half (container bit length set / extent / following offsets depend only on the extent of a nested delimited
-    type): HOOK - to be added here by the coordinator on top of the C02/C08 contracts (specs/c02.py tags them with C14).
-"""
-from .c14_wire import *  # noqa: F401,F403
-from .c14_wire import LEAN, LEVEL, NATIVE, NATIVE_BUDGET, EXTRA_CHECKS, NOT_COVERED, EXPLANATION, ASSUMPTIONS  # noqa
+try:
+    from . import c14_wire as _wire
+    from .c14_wire import *  # noqa  (NATIVE, NATIVE_BUDGET, EXTRA_CHECKS, LEVEL of the wire half)
+except ImportError:
+    _wire = None
+
+if _wire is not None:
+    # module attributes that both halves define are combined, not overridden
+    LEAN = list(dict.fromkeys(list(getattr(_layout, "LEAN", [])) + list(_wire.LEAN)))
+    NOT_COVERED = list(getattr(_layout, "NOT_COVERED", [])) + [
+        x for x in _wire.NOT_COVERED if not x.startswith("layout half")]
+    ASSUMPTIONS = list(getattr(_layout, "ASSUMPTIONS", [])) + list(_wire.ASSUMPTIONS)
+    EXPLANATION = (getattr(_layout, "EXPLANATION", "") + "  Wire half: " + _wire.EXPLANATION).strip()
+    EXTRA_CHECKS = list(getattr(_layout, "EXTRA_CHECKS", [])) + list(_wire.EXTRA_CHECKS)
